@@ -107,7 +107,7 @@ pub fn warmup(k: &Kind) -> Option<(usize, usize)> {
         Sma(n) | Ema(n) | EmaAlpha(n, _) | SuperSmoother(n) | Rsi(n) | MyRsi(n) => (n.max(1), n.max(1)),
         Roofing(n, m) => (n + m + 1, n + m + 1),
         LnReturn => (2, 2),
-        Welford(n) | Vst(n) | Vsct(n) => (n.saturating_sub(1).max(1), n.max(1)),
+        Welford(n) | Vst(n) | Vsct(n) => (n.saturating_sub(1), n.max(1)),
         Min(_) | Max(_) | Cumulative(_) | Alma(_) | AlmaCustom(..) | Cog(_) | BinEnt(_) | Gte(_)
         | Lte(_) | Tanh | LagFilter(_) => (1, 1),
         _ => return None,
